@@ -4,6 +4,7 @@ worlds the all-schedules theorems quantify over (`SStar`, `XStar`, …) contain 
 user submits local inputs, remote inputs arrive and `advance_frame` advances several times in a row.
 -/
 import GgrsModel.Proofs.World
+import GgrsModel.Proofs.Pair
 
 namespace Ggrs
 open P2P
@@ -68,5 +69,69 @@ theorem demo_run (t : TLState) : ∃ t', SStar (demoSession, t) (demoS3, t') := 
       (SStep.localInput demoS2x _ 0 7))
       (SStep.tick _ demoS3 _ 0 (getOk (demoTick demoS2x 7)).2 e3)
   exact ⟨_, p3⟩
+
+/-! ### a concrete run of the pair -/
+
+/-- The peer of `demoSession`: handle 1 local, handle 0 behind address 0. -/
+def demoPeer : P2P :=
+  { numPlayers := 2, maxPrediction := 8, sync := SyncLayer.new 2 8, sparse := false, running := true, fps := 60,
+    handles := [(0, .remote 0), (1, .localPlayer)], remotes := [], spectators := [],
+    localConnectStatus := List.replicate 2 {}, desync := none, pred := .repeatLast }
+
+def peerTick (s : P2P) (v : Input) : Except String (P2P × List Request) :=
+  (s.addLocalInput 1 v).1.advanceRollbackFrame 0 []
+
+def demoB1 : P2P := (getOk (peerTick demoPeer 9)).1
+def demoB1x : P2P := demoB1.userExecute (demoSaves (getOk (peerTick demoPeer 9)))
+/-- B receives A's frame 0 (value 5, as A's queue holds it) -/
+def demoB1r : P2P := getOk (demoB1x.handleEventCore 0 (.input ⟨0, 5⟩ 0) [0] 0)
+/-- A receives B's frame 0 (value 9, as B's queue holds it): `demoS1r` -/
+def demoB2 : P2P := (getOk (peerTick demoB1r 8)).1
+
+theorem demo_okB1 : isOk (peerTick demoPeer 9) = true := by decide
+theorem demo_okB1r : isOk (demoB1x.handleEventCore 0 (.input ⟨0, 5⟩ 0) [0] 0) = true := by decide
+theorem demo_okB2 : isOk (peerTick demoB1r 8) = true := by decide
+theorem demo_frameB2 : demoB2.sync.currentFrame = 2 := by decide
+
+/-- Both sessions tick, each receives the other's frame 0 — taken from the owner's queue — after
+having predicted it, and both roll back on their next call: a path of the pair world. -/
+theorem demo_pair_run (tA tB : TLState) : ∃ tA' tB', PStar ((demoSession, tA), (demoPeer, tB)) ((demoS2, tA'), (demoB2, tB')) := by
+  have e1 := ok_of_isOk _ demo_ok1
+  have e1r := ok_of_isOk _ demo_ok1r
+  have e2 := ok_of_isOk _ demo_ok2
+  have f1 := ok_of_isOk _ demo_okB1
+  have f1r := ok_of_isOk _ demo_okB1r
+  have f2 := ok_of_isOk _ demo_okB2
+  -- A: input, call, saves
+  have p1 := PStar.step _ _ _ (PStar.step _ _ _ (PStar.step _ _ _ (PStar.refl ((demoSession, tA), (demoPeer, tB)))
+      (PStep.left _ _ _ (Half.localInput demoSession tA (demoPeer, tB) 0 5)))
+      (PStep.left _ _ _ (Half.tick _ demoS1 tA (demoPeer, tB) 0 (getOk (demoTick demoSession 5)).2 e1)))
+      (PStep.left _ _ _ (Half.saves demoS1 _ (demoPeer, tB) (demoSaves (getOk (demoTick demoSession 5)))))
+  -- B: input, call, saves
+  have p2 := PStar.step _ _ _ (PStar.step _ _ _ (PStar.step _ _ _ p1
+      (PStep.right _ _ _ (Half.localInput demoPeer tB (demoS1x, _) 1 9)))
+      (PStep.right _ _ _ (Half.tick _ demoB1 tB (demoS1x, _) 0 (getOk (peerTick demoPeer 9)).2 f1)))
+      (PStep.right _ _ _ (Half.saves demoB1 _ (demoS1x, _) (demoSaves (getOk (peerTick demoPeer 9)))))
+  -- arrivals: A gets B's frame 0, B gets A's frame 0, each from the owner's queue
+  have p3 := PStar.step _ _ _ p2 (PStep.left _ _ _
+      (Half.arrive demoS1x demoS1r _ (demoB1x, _) 0 0 9 1 [1] 1 (by decide : 1 ∈ demoB1x.localPlayerHandles) (by decide)
+        (by decide : 1 < demoB1x.sync.queues.length) (by decide) (by decide)
+        (by decide : ((0 : Nat) : Int) ≤ (rget demoB1x.sync.queues 1).lastAddedFrame)
+        (by decide : (rget demoB1x.sync.queues 1).lastAddedFrame < ((0 : Nat) : Int) + INPUT_QUEUE_LENGTH)
+        (by decide : rget (rget demoB1x.sync.queues 1).inputs (0 % INPUT_QUEUE_LENGTH) = ⟨((0 : Nat) : Int), 9⟩) e1r))
+  have p4 := PStar.step _ _ _ p3 (PStep.right _ _ _
+      (Half.arrive demoB1x demoB1r _ (demoS1r, _) 0 0 5 0 [0] 0 (by decide : 0 ∈ demoS1r.localPlayerHandles) (by decide)
+        (by decide : 0 < demoS1r.sync.queues.length) (by decide) (by decide)
+        (by decide : ((0 : Nat) : Int) ≤ (rget demoS1r.sync.queues 0).lastAddedFrame)
+        (by decide : (rget demoS1r.sync.queues 0).lastAddedFrame < ((0 : Nat) : Int) + INPUT_QUEUE_LENGTH)
+        (by decide : rget (rget demoS1r.sync.queues 0).inputs (0 % INPUT_QUEUE_LENGTH) = ⟨((0 : Nat) : Int), 5⟩) f1r))
+  -- both call again (and roll back)
+  have p5 := PStar.step _ _ _ (PStar.step _ _ _ p4
+      (PStep.left _ _ _ (Half.localInput demoS1r _ (demoB1r, _) 0 6)))
+      (PStep.left _ _ _ (Half.tick _ demoS2 _ (demoB1r, _) 0 (getOk (demoTick demoS1r 6)).2 e2))
+  have p6 := PStar.step _ _ _ (PStar.step _ _ _ p5
+      (PStep.right _ _ _ (Half.localInput demoB1r _ (demoS2, _) 1 8)))
+      (PStep.right _ _ _ (Half.tick _ demoB2 _ (demoS2, _) 0 (getOk (peerTick demoB1r 8)).2 f2))
+  exact ⟨_, _, p6⟩
 
 end Ggrs
